@@ -135,6 +135,9 @@ func (o *Out) Emit(op string, res string) {
 	if len(c) > 24 {
 		c = c[:24]
 	}
+	if _, ok := o.Results[c]; !ok && len(o.Results) >= 40 {
+		c = "(other)"
+	}
 	o.Results[c]++
 }
 
